@@ -108,7 +108,59 @@ def witness_search(prop, violation):
 
 
 def run(c, prop, tier, seed):
-    raise NotImplementedError(c["name"])
+    """bounded companions; kind 'kani': the function bodies are re-extracted by vx (no rewriting rules) into a harness
+    crate and checked by Kani/CBMC bit-precisely within the stated bound"""
+    import vxdriver as vx
+    if c.get("kind") != "kani":
+        raise NotImplementedError(c["name"])
+    t0 = time.time()
+    bdir = os.path.join(vx.BUILD, "kani_" + c["name"])
+    os.makedirs(os.path.join(bdir, "src"), exist_ok=True)
+    req = {"repo": REPO, "items": [dict(it, kind="fn", rules=[]) for it in c["items"]]}
+    rq = os.path.join(bdir, "req.json")
+    json.dump(req, open(rq, "w"))
+    r = subprocess.run([vx.VX, "extract", rq], capture_output=True, text=True)
+    if r.returncode != 0:
+        raise vx.Undecided("kani companion: vx extract failed: " + r.stderr[:300])
+    items = {it["id"]: it for it in json.loads(r.stdout)["items"]}
+    text = open(os.path.join(vx.VERIF, c["dir"], "lib.rs.tmpl")).read()
+    for it in c["items"]:
+        got = items.get(it["id"])
+        if not got or not got.get("ok"):
+            raise vx.Undecided(f"kani companion: lost anchor: {it['id']}: {got.get('error') if got else 'missing'}")
+        mark = "/*@body %s*/" % it["id"]
+        if mark not in text:
+            raise vx.Undecided(f"kani companion: template has no marker for {it['id']}")
+        text = text.replace(mark, got["body"])
+    open(os.path.join(bdir, "src", "lib.rs"), "w").write(text)
+    open(os.path.join(bdir, "Cargo.toml"), "w").write('[package]\nname = "kani_%s"\nversion = "0.1.0"\nedition = "2021"\n[dependencies]\n[workspace]\n' % c["name"])
+    env = dict(os.environ, CARGO_NET_OFFLINE="true")
+    res = {"name": c["name"], "backend": "kani 0.68 / cbmc (bit-precise, BOUNDED)", "bound": c.get("bound", ""), "harnesses": [], "violations": [],
+           "functions": [f"{it['file']}::{it.get('impl_self', '')}::{it['name']}" for it in c["items"]], "labelled": "bounded: never counted as proved"}
+    for h in c["harnesses"]:
+        cmd = ["cargo", "kani", "--harness", h]
+        try:
+            k = subprocess.run(cmd, cwd=bdir, capture_output=True, text=True, env=env, timeout=c.get("timeout", 1800))
+        except subprocess.TimeoutExpired:
+            raise vx.Undecided(f"kani companion {h}: timeout")
+        out = k.stdout + "\n" + k.stderr
+        if "VERIFICATION:- SUCCESSFUL" in out:
+            m = re.search(r"\*\* (\d+) of (\d+) failed", out)
+            res["harnesses"].append({"harness": h, "result": "successful", "checks": int(m.group(2)) if m else None, "cmd": "cd %s && %s" % (bdir, " ".join(cmd))})
+        elif "VERIFICATION:- FAILED" in out:
+            failed = re.findall(r"Failed Checks: ([^\n]*)", out)
+            # concrete values for the failing trace
+            cp = subprocess.run(cmd + ["-Z", "concrete-playback", "--concrete-playback=print"], cwd=bdir, capture_output=True, text=True, env=env, timeout=c.get("timeout", 1800))
+            mcp = re.search(r"Concrete playback unit test[^\n]*\n(.*?)(?:\nINFO|\Z)", cp.stdout + cp.stderr, re.S)
+            play = mcp.group(1)[:3000] if mcp else None
+            res["harnesses"].append({"harness": h, "result": "failed", "failed_checks": failed})
+            res["violations"].append({"unit": "kani", "obligation": f"{prop}.kani.{h}", "site": "kani::" + h, "site_file": c["items"][0]["file"], "message": "; ".join(failed)[:400],
+                                      "spans": [], "rendered": out[-3000:], "backend": "kani",
+                                      "witness": {"found_by": "kani concrete playback of " + h, "input": play, "cmd": "cd %s && %s" % (bdir, " ".join(cmd))} if play else None})
+        else:
+            raise vx.Undecided(f"kani companion {h}: no verdict: " + out[-400:])
+    res["wall_s"] = round(time.time() - t0, 1)
+    return res
 
 
 def replay(prop, path):
